@@ -36,6 +36,8 @@ SUBDOMAIN_PROBES = [
     "www.www.a.com", "m.", "m", ".m.a", "..m.a", "amp-www.a.com", "www.amp-a.com", "ampx.a.com", "mobile.mobile.m.www3.x",
     "a.com", "", "www", "www.", "www1.", "Www9.M.Mobile.AMP.x", "am.p.a", "mwww.a.com", "www.a.m.", "a.amp.", "xn--m.a.com",
     "ım.a.com", "mobıle.a.com",
+    # `\d` of a str pattern is every Unicode decimal digit (Nd), not only 0-9
+    "www\u0663.a.com", "WWW\uff13.a.com", "www\u0663\u0663.a.com", "www\u00b2.a.com", "a.www\u0967.b.c", "www\U0001d7d7.x.y", "www\u2460.a.com",
 ]
 
 AMP_SUFFIX_PROBES = [
@@ -160,6 +162,19 @@ def gen_normalize_tables():
             out.append("/-- `(s, RE.sub(%r, s))` of the real compiled regex on a fixed probe list -/" % repl)
             out.append("def %sProbes : List (String × String) := [\n  %s]" % (lean_name, ",\n  ".join(
                 "(%s, %s)" % (lean_str(p), lean_str(rx.sub(repl, p))) for p in probes)))
+
+    # ---- `\d` of the subdomain patterns: the class the compiled regex really matches ----
+    import re as _re
+
+    from gen_tables.regex import ALLCHARS, ranges_of
+
+    digit_re = _re.compile(r"\d", n.IRRELEVANT_SUBDOMAIN_RE.flags & ~_re.DEBUG)
+    if "\\d" not in n.IRRELEVANT_SUBDOMAIN_RE.pattern:
+        problems.append("IRRELEVANT_SUBDOMAIN_RE no longer uses \\d")
+    out.append("/-- the code points `\\d` matches in a pattern compiled with the flags of `IRRELEVANT_SUBDOMAIN_RE` "
+               "(a str pattern: every Unicode decimal digit), as closed ranges -/")
+    out.append("def reDigitRanges : List (Nat × Nat) := [%s]" % ", ".join(
+        "(%d, %d)" % (a, b) for a, b in ranges_of(digit_re.findall(ALLCHARS))))
 
     # ---- fingerprint data -------------------------------------------------------------
     iso = data.ISO_3166_1_COUNTRIES_ALPHA_2
